@@ -9,8 +9,8 @@ HOOKS = {
 }
 NOTES = ("Every check: ./check <id> [--tier quick|thorough] [--replay FILE]; honours VERIF_SEED and VERIF_TIER. "
          "Technique for every property: machine-checked proof in Lean 4 over a hand-written model, tied to the source by "
-         "differential execution and regenerated facts (DESIGN.md) — since round 2 twenty functions of the codec (both directions of the one-shot frame codec, the "
-         "streaming header decoder, handshake, string-length helpers) are translated from the Go source statement by statement on every run and PROVED equal to the "
+         "differential execution and regenerated facts (DESIGN.md) — since round 2 twenty-three functions of the codec (both directions of the one-shot frame codec, the "
+         "streaming decoders, handshake, string-length helpers) are translated from the Go source statement by statement on every run and PROVED equal to the "
          "model functions, the access tables of the client and the connection types are regenerated and decided, and the hook logs of every client run are replayed "
          "through the Waiters, Recovery and ConnThreads transition systems. KNOWN_FINDINGS.txt lists recorded and repaired defects (D1–D24, all fixed).")
 CODEC_NOTE = ("Trusted: Lean kernel; axioms propext/Classical.choice/Quot.sound only (audited each run); the Go harness, the Lean driver's "
